@@ -469,7 +469,7 @@ FLOORS["C12"] = {"drop_orders_enumerated": 72, "evaluations": 5000, "distinct_no
 prop("C06", level="exploration",
      title="Aligned 1/2/4/8-byte guest accesses are never torn",
      technique="three layered monitors: (1) cfg-guarded trace hook in the byte-copy helper - for every transfer the recorded primitive accesses must tile the transfer once, ascending, aligned to their width on both sides, and an aligned 1/2/4/8-byte transfer must be exactly one access of that width, never a bulk copy; complete grid over length x guest alignment x local alignment x entry point; (2) valgrind lackey memory trace of a probe binary: between marker stores exactly one machine access of width n to the guest location; (3) black-box writer/reader tearing detector; atomic store/load round trip and refusal of every misaligned offset",
-     rule="cases = transfers. Hook grid (complete): n in 0..12 x guest address mod 8 x local address mod 8 x 27 entry points (write/read/write_slice/read_slice at slice, region and guest level; copy_from/copy_to<u8> on slices and array refs; read_volatile_from(&[u8]), read_exact_volatile_from(Cursor), write_volatile_to(&mut [u8]), write_all_volatile_to(Vec); guest read_exact_volatile_from) + write_obj/read_obj of u8,u16,u32,u64,i32,usize at 8 guest alignments x 3 levels. Lackey: 17 entry points x {u8,u16,u32,u64} x 3 offsets on the release (quick) and debug+release (thorough) binaries. Tearing: u16/u32/u64 x {slice, region, guest} x 2*10^5 (quick) / 2*10^6 (thorough) reads each. Atomics: 6 types x 24 offsets x 3 orderings + guest level on an aligned base; 7 types x views whose base is skewed by 0..8 bytes (derived with offset / get_slice / split_at) x 16 offsets x 2 orderings for store, load and get_atomic_ref (acceptance must follow the alignment of the address; each batch runs in a forked child because a wrongly accepted misaligned reference aborts a checked build). distinct key = (entry point, direction, n, guest mod 8, local mod 8, judged-single | tiling); all non-trivial",
+     rule="cases = transfers. Hook grid (complete): n in 0..12 x guest address mod 8 x local address mod 8 x 29 entry points (write/read/write_slice/read_slice at slice, region and guest level; copy_from/copy_to<u8> on slices, on array refs and on array refs converted from slices; read_volatile_from(&[u8]), read_exact_volatile_from(Cursor), write_volatile_to(&mut [u8]), write_all_volatile_to(Vec); guest read_exact_volatile_from) + write_obj/read_obj of u8,u16,u32,u64,i32,usize at 8 guest alignments x 3 levels. Lackey: 35 entry points (every entry point of the hook grid, incl. the array-ref copy helpers called directly and on arrays converted from slices, the region- and guest-level buffer forms and all in-memory stream adapters, plus the whole-object and atomic forms) x {u8,u16,u32,u64} x 3 offsets on the release (quick) and debug+release (thorough) binaries. Tearing: u16/u32/u64 x {slice, region, guest} x 2*10^5 (quick) / 2*10^6 (thorough) reads each. Atomics: 6 types x 24 offsets x 3 orderings + guest level on an aligned base; 7 types x views whose base is skewed by 0..8 bytes (derived with offset / get_slice / split_at) x 16 offsets x 2 orderings for store, load and get_atomic_ref (acceptance must follow the alignment of the address; each batch runs in a forked child because a wrongly accepted misaligned reference aborts a checked build). distinct key = (entry point, direction, n, guest mod 8, local mod 8, judged-single | tiling); all non-trivial",
      exhaustive_note="hook grid: every (n <= 12, guest mod 8, local mod 8) for every entry point that funnels into the copy helper",
      assumptions=["on x86-64 a single mov of width n is the observable; a change that keeps one machine access but drops `volatile` at the language level is observationally identical (stated in DESIGN.md §9)", "transfers that straddle two mappings and guest addresses whose host address is not aligned are not in the judged class", "whole-object forms: the local value's address is taken from the trace (it is naturally aligned by construction)"],
      level_text="Hook-level oracle over a completely enumerated alignment grid, cross-checked at machine level (lackey) and by a concurrent tearing detector; held-on-observed.",
@@ -504,8 +504,8 @@ FLOORS["C06"] = {"judged_single_access_transfers": 3000, "tearing_reads": 1_000_
 prop("C08", level="model_checking",
      title="A dirty mark is never lost when marking races with harvesting the bitmap",
      technique="stateless model checking of the real code under a controlled scheduler: a cfg-guarded shim (hook H2) puts a yield point in front of every atomic operation on the bitmap words, exactly one managed thread runs between two yield points, and ALL interleavings of each catalogue program are executed (DFS over choice strings with prefix replay); each execution's API-boundary history is checked for per-page linearizability against a boolean with set / clear / test-and-clear / read plus a quiescent final read; seeded random schedules for larger programs; free-running threads natively, under TSan and under Miri many-seeds",
-     rule="states = scheduler decision points, transitions = atomic steps granted; programs: 12 hand-written catalogue programs of 2..3 threads on pages that share one 64-bit word or span two (two markers + harvester, marker range vs harvester, markers + clone, marker spanning words, marker vs reset_range vs harvester, set_bit vs reset_bit, marker vs two harvesters, mark_dirty vs harvest vs is_bit_set, three markers, marker vs reset(), re-mark after harvest, range mark vs range reset) plus a systematic family of 44 programs (each of 8 operations X - reset_range, reset_bit, set_bit, mark_range, mark_dirty, harvest, reset(), wide reset_range - issued on an already dirty page while a second thread performs two further read-modify-writes on the same word, in 5 shapes: two marks, mark then harvest, harvest then mark, mark then unmark, same page twice; and 4 three-thread variants with a marker and a harvester) - every interleaving of each is executed (46 947 schedules); random 3-thread programs of up to 12 calls under seeded PCT-style schedules; 2x10^3..10^5 free-running histories. An execution is non-trivial when two different threads touch the same word back-to-back",
-     exhaustive_note="all interleavings (at the granularity of whole atomic operations, sequentially consistent) of the 56 catalogue programs",
+     rule="states = scheduler decision points, transitions = atomic steps granted; programs: 12 hand-written catalogue programs of 2..3 threads on pages that share one 64-bit word or span two (two markers + harvester, marker range vs harvester, markers + clone, marker spanning words, marker vs reset_range vs harvester, set_bit vs reset_bit, marker vs two harvesters, mark_dirty vs harvest vs is_bit_set, three markers, marker vs reset(), re-mark after harvest, range mark vs range reset) plus a systematic family of 44 programs (each of 8 operations X - reset_range, reset_bit, set_bit, mark_range, mark_dirty, harvest, reset(), wide reset_range - issued on an already dirty page while a second thread performs two further read-modify-writes on the same word, in 5 shapes: two marks, mark then harvest, harvest then mark, mark then unmark, same page twice; 4 three-thread variants with a marker and a harvester; and 20 programs that start from a value-dependent initial state set up before the threads run - the first word fully dirty, fully dirty but one page, two words fully dirty - with two harvesters, harvest vs reset+re-mark, harvest vs re-mark+harvest, reset()/reset_range/clone vs harvest+re-mark) - every interleaving of each is executed (47 627 schedules); one random program in three also starts from a fully dirty word; random 3-thread programs of up to 12 calls under seeded PCT-style schedules; 2x10^3..10^5 free-running histories. An execution is non-trivial when two different threads touch the same word back-to-back",
+     exhaustive_note="all interleavings (at the granularity of whole atomic operations, sequentially consistent) of the 76 catalogue programs",
      assumptions=["interleavings are explored at atomic-operation granularity under sequential consistency; weaker-than-SC effects are left to Miri's weak-memory emulation and TSan", "the linearizability checker (60 lines, brute force with memoisation, <= 24 operations per page) is trusted", "reset() is modelled as a per-page clear (it is documented as not harvesting)"],
      level_text="Exhaustive exploration of all interleavings of bounded concurrent programs executed on the real implementation (not a model), with a linearizability oracle per execution; sampling beyond the catalogue.",
      level_note="Bounded programs only; the yield points exist only in --cfg vm_memory_verif builds (the shim forwards to std's AtomicU64 with the caller's ordering).",
@@ -532,7 +532,7 @@ def plan_c08(tier, seed):
     return runs
 
 
-FLOORS["C08"] = {"schedules_explored": 46_000, "programs_exhausted": 56, "schedules_with_cross_thread_contention_on_one_word": 20_000, "free_histories": 5000}
+FLOORS["C08"] = {"schedules_explored": 47_000, "programs_exhausted": 76, "schedules_with_cross_thread_contention_on_one_word": 20_000, "free_histories": 5000}
 
 # ----------------------------------------------------------------------------------------------
 prop("C11", level="exploration",
